@@ -163,7 +163,7 @@ def check_cli(acc, tmp, docs, src, tier):
         for with_out in (False, True):
             src_p = os.path.join(root, f's{i}_{int(with_out)}.krn')
             open(src_p, 'wb').write(texts[n].encode('utf-8'))
-            out_p = os.path.join(root, 'o', f'res{i}.ekrn') if with_out else src_p[:-4] + '.ekrn'
+            out_p = os.path.join(root, 'o', f'res{i}' + ['.ekrn', '.ekern', '.txt', ''][i % 4]) if with_out else src_p[:-4] + '.ekrn'
             before = snapshot_tree(root)
             r = cli(root, ['--kern2ekern', '--input_path', src_p] + (['--output_path', out_p] if with_out else []), src)
             acc.count('transitions')
